@@ -54,8 +54,8 @@ PROPS["C02"] = dict(
          "non-trivial = encoding of at least 2 bytes; distinct = hash set of (type, encoding, suffix length)",
     assumptions=COMMON_ASSUMPTIONS,
     required=[("types_exercised", 200), ("spy_reads", 1000)],
-    stages=lambda tier: [native(), miri(values=2 if tier == "quick" else 40)] + ([
-        asan(values=4000), valgrind(values=400),
+    stages=lambda tier: [native(), miri(shards=32, values=2 if tier == "quick" else 40), asan(values=300 if tier == "quick" else 4000),
+                         valgrind(values=4 if tier == "quick" else 400)] + ([
         miri(runtime="miri-s390x", name="miri-s390x", values=8),
         miri(runtime="miri-i686", name="miri-i686", values=8),
     ] if tier == "thorough" else []),
@@ -76,8 +76,8 @@ PROPS["C03"] = dict(
     required=[("types_exercised", 200), ("exhaustive_strings", 60000), ("rejected:bad-tag", 10), ("rejected:bad-variant", 10),
               ("rejected:bad-utf8", 10), ("rejected:zero-nonzero", 10), ("rejected:nanos", 1), ("rejected:non-canonical-compact", 10),
               ("rejected:over-wide-compact", 10), ("rejected:too-many-bits", 10), ("rejected:eof", 10), ("accepted", 1000)],
-    stages=lambda tier: [native(), native(runtime="release", name="release", slow=2)] + ([
-        asan(values=800), miri(values=3),
+    stages=lambda tier: [native(), native(runtime="release", name="release", slow=2), asan(values=60 if tier == "quick" else 800, args=["--mode", "sampled-only"])] + ([
+        miri(values=3, args=["--mode", "sampled-only"]),
     ] if tier == "thorough" else []),
 )
 
@@ -103,9 +103,10 @@ PROPS["C07"] = dict(
          "arrays 0/1/32/33} against an element-wise twin, bytes and decode outcomes on valid/truncated/flipped/extended strings; non-trivial = encoding "
          "of at least 2 bytes; distinct = hash set of (type or element type, bytes)",
     assumptions=COMMON_ASSUMPTIONS + ["which path ran is read off the Output chunk trace / Input read trace: bulk = few large requests, element-wise = at least one request per element"],
-    required=[("types_exercised", 200), ("prims_with_bulk_write_and_read_observed", 12), ("array_cases", 100)],
-    stages=lambda tier: [native(), miri(shards=12, values=1, args=["--mode", "bulk-only"])] + ([
-        asan(values=2000), valgrind(values=100), miri(values=6, name="miri-entry-points"),
+    required=[("types_exercised", 200), ("prims_with_bulk_write_and_read_observed", 12), ("array_cases", 100), ("elementwise_decode_differentials", 10000)],
+    stages=lambda tier: [native(), miri(shards=12, values=1, args=["--mode", "bulk-only"]), asan(values=150 if tier == "quick" else 2000),
+                         valgrind(shards=12, values=1, args=["--mode", "bulk-only"], name="valgrind-bulk")] + ([
+        valgrind(values=100), miri(values=6, name="miri-entry-points"),
         miri(runtime="miri-s390x", name="miri-s390x", shards=12, values=1, args=["--mode", "bulk-only"]),
     ] if tier == "thorough" else []),
 )
@@ -118,7 +119,7 @@ PROPS["C08"] = dict(
          "non-trivial = non-empty string; distinct = hash set of (type, bytes)",
     assumptions=COMMON_ASSUMPTIONS + ["only success/failure, value and bytes consumed on success are compared; error texts and consumption on failure are not"],
     required=[("types_exercised", 200), ("distinct_stacks_seen", 150), ("zero_copy_observed", 50), ("accepted", 1000), ("rejected", 1000)],
-    stages=lambda tier: [native()] + ([miri(values=2), asan(values=300)] if tier == "thorough" else []),
+    stages=lambda tier: [native()] + ([miri(values=2)] if tier == "thorough" else []) + [asan(values=25 if tier == "quick" else 300)] + ([]),
 )
 
 PROPS["C10"] = dict(
@@ -134,7 +135,7 @@ PROPS["C10"] = dict(
     required=[("types_exercised", 55), ("fault_after_construction:malformed-element", 100), ("fault_after_construction:panic-in-element", 100),
               ("fault_after_construction:exhausted", 100), ("fault_after_construction:panic-in-input", 100), ("fault_after_construction:mem-limit", 20),
               ("fault_after_construction:depth-limit", 5), ("success_runs", 100)],
-    stages=lambda tier: [native(), miri(values=1 if tier == "quick" else 12), asan(values=200 if tier == "quick" else 2000)] + ([valgrind(values=100)] if tier == "thorough" else []),
+    stages=lambda tier: [native(), miri(shards=32, values=3 if tier == "quick" else 30), asan(values=150 if tier == "quick" else 1500)] + ([valgrind(values=50)] if tier == "thorough" else []),
 )
 
 PROPS["C14"] = dict(
@@ -243,7 +244,7 @@ PROPS["C06"] = dict(
          "borrowed/owned, Ref, ...) over 20 types; each state encodes like the freshly built equal value and like the specification, twice. "
          "Non-trivial = encoding of at least 2 bytes; distinct = hash set of (type, bytes, layout signature or history)",
     assumptions=COMMON_ASSUMPTIONS + ["BinaryHeap is excluded: its iteration order legitimately depends on history and the property does not list it"],
-    required=[("deque_types_with_wrapped_states", 15), ("deque_layout_signatures", 500), ("map_permutations", 800), ("map_histories", 50),
+    required=[("deque_types_with_wrapped_states", 17), ("holder_sequence_cases", 5000), ("deque_layout_signatures", 500), ("map_permutations", 800), ("map_histories", 50),
               ("list_histories", 100), ("bit_offset_length_cases", 10000), ("bit_histories", 500), ("holder_cases", 2000), ("vec_histories", 500), ("string_histories", 100)],
     stages=lambda tier: [native()] + ([miri(values=6)] if tier == "thorough" else []),
 )
